@@ -630,6 +630,10 @@ def _sstr_method(interp, v, name):
         return Builtin('startswith', sw)
     if name == 'endswith':
         def ew(suffix):
+            pl = v.pieces[-1] if v.pieces else ''
+            if isinstance(suffix, str) and isinstance(pl, str) and \
+                    len(pl) >= len(suffix):
+                return pl.endswith(suffix)
             n = v.concrete_len()
             if n is None or not isinstance(suffix, str):
                 raise Unsupported('endswith symbolic')
@@ -2088,6 +2092,17 @@ def external_modules(interp):
         L = it.ctx.fresh('nowlen', 'int')
         it.ctx.atoms.facts.append(z3.Or(L == 19, L == 26))
         return _s.SStr([_s.Tok('now', mk(L), excl='\n\r!', first_nondigit=False)])
+    def yaml_dump(it, data=None, stream=None, **kw):
+        # PyYAML is an external dependency: the text it produces is opaque
+        # (one unknown piece per call); what is handed to it is recorded
+        from . import sstr as _s
+        n = len([c for c in it.ext_calls if c[0] == 'yaml.dump'])
+        it.ext_calls.append(('yaml.dump', dict(kw, data=data, args=[data])))
+        L = it.ctx.fresh('yamllen', 'int')
+        it.ctx.atoms.facts.append(L >= 1)
+        return _s.SStr([_s.Tok('yaml!%d' % n, mk(L), excl="'\n",
+                               first_nondigit=True)])
+    E['yaml'] = _mod('yaml', {'dump': B('dump', yaml_dump)})
     E['datetime.datetime'] = _mod('datetime.datetime', {'now': B('now', now)})
     E['datetime'] = _mod('datetime', {'datetime': E['datetime.datetime']})
     E['re'] = _mod('re', _re_table(interp))
@@ -2239,6 +2254,17 @@ def _namedtuple(interp, typename, fields, **kw):
         for f, v in zip(fields, vals):
             self.fields[f] = v
     cls.attrs['__init__'] = Builtin('nt.__init__', init, pass_interp=True)
+
+    def replace_(it, self, **kwargs):
+        for k in kwargs:
+            if k not in fields:
+                raise_('ValueError', 'Got unexpected field names: %r' % k)
+        o = Obj(cls)
+        for f in fields:
+            o.fields[f] = kwargs.get(f, self.fields[f])
+        return o
+    cls.attrs['_replace'] = Builtin('nt._replace', replace_, pass_interp=True)
+    cls.attrs['_replace'].bind_self = True
     return cls
 
 
